@@ -4,9 +4,9 @@ and the per-property texts in scripts/manifest_texts.json. Properties without a 
 POOL_TEXT = (' In addition, restricted to the functions reachable from this property\'s entry points (call graph with class-hierarchy '
              'resolution of the repository\'s interfaces): the pooled function-scoped clauses found for neighbouring properties, the generic '
              'error / received-error / presence-test / accumulator disciplines, effect dominance (no success path loses a store or file-system '
-             'operation every success path of the reviewed tree passed) and the guarded-action table of the core functions (every recorded '
-             'step of the mechanism is still performed under the same set of conditions).')
-POOL_TECH = '; call-graph reachability selects pooled clauses; must-effect summaries with callee inlining (E-DOM); rename- and order-robust guarded-action sets compared with a reviewed table (E-GUARD)'
+             'operation every success path of the reviewed tree passed). A comparison of the guarded actions of the core functions with a reviewed '
+             'table is computed too but is advisory only (evidence notes): it is not robust to equivalent restructurings and raises no violation.')
+POOL_TECH = '; call-graph reachability selects pooled clauses; must-effect summaries with callee inlining (E-DOM); negation-normal-form guards of statements (used by clauses that ask under which conditions a step runs; the table comparison E-GUARD is advisory)'
 import json, subprocess, os, sys
 V = os.path.dirname(os.path.dirname(os.path.abspath(__file__)))
 texts = json.load(open(os.path.join(V, 'scripts', 'manifest_texts.json')))
